@@ -72,6 +72,10 @@ JudgeImpute(e) ==
 JudgeConstrain(e) ==
        Fails(e, "NoBannedProductAccepted", e.accepted => ~e.has_banned_product)
     \o Fails(e, "EveryEntryClassified", e.accepted \/ e.rejected)
+    \* the redox rewrites of the constraint step ([H] pairs -> water with [O] on the left, [O] / HOOH -> water with
+    \* hydrogen on the left) move atoms on both sides alike: products minus reactants is what it was
+    \o Fails(e, "ConstraintKeepsDifference", e.accepted => e.delta_out = e.delta_in)
+    \o Fails(e, "NewReactionIsItsSides", e.accepted => e.new_reaction_is_sides)
 
 Judge(e) == CASE e.ev = "db" -> JudgeDb(e)
               [] e.ev = "match" -> JudgeMatch(e)
